@@ -477,6 +477,37 @@ def dict_set(it, d, k, v) -> None:
         st.put(d, "$hi", p["hi"] + 1)
 
 
+def dict_merge(it, d, src, override: bool) -> None:
+    """d.update(src) (override) / `for k, v in src.items(): d.setdefault(k, v)` (keep): exact on membership and
+    values (T-COLL); the key order of the result is left abstract (new keys follow the old ones)."""
+    st = it.st
+    pd, ps = dict_parts(it, d), dict_parts(it, src)
+    k = z3.Const("k!dm", Val)
+    has = z3.Lambda([k], z3.Or(z3.Select(pd["has"], k), z3.Select(ps["has"], k)))
+    if override:
+        val = z3.Lambda([k], z3.If(z3.Select(ps["has"], k), z3.Select(ps["val"], k), z3.Select(pd["val"], k)))
+    else:
+        val = z3.Lambda([k], z3.If(z3.Select(pd["has"], k), z3.Select(pd["val"], k), z3.Select(ps["val"], k)))
+    n = st.fresh("dm_n", I)
+    st.assume(n >= pd["hi"] - pd["lo"])
+    st.put(d, "$dhas", has)
+    st.put(d, "$dval", val)
+    st.put(d, "$arr", st.fresh("dm_keys", V.ArrIV))
+    st.put(d, "$dpos", st.fresh("dm_pos", V.ArrVI))
+    st.put(d, "$lo", z3.IntVal(0))
+    st.put(d, "$hi", n)
+
+
+@spec("dict.update", "OrderedDict.update")
+def _dict_update(it, lv, ca, node):
+    if len(ca.pos) != 1 or ca.kw or ca.star is not None or ca.starstar is not None:
+        raise Unsupported("dict.update with keyword arguments / several sources")
+    if _cname(it, ca.pos[0]) not in ("dict", "OrderedDict", "mappingproxy"):
+        raise Unsupported("dict.update from a value that is not a dict")
+    dict_merge(it, lv.bound, ca.pos[0], True)
+    return V.VNone
+
+
 def dict_remove_at(it, d, k) -> None:
     """Remove present key k (shifts later keys one position to the left)."""
     st = it.st
@@ -648,16 +679,27 @@ def eq_term(a, b) -> z3.ExprRef:
 
 
 def eq_fn(it, a, b) -> z3.ExprRef:
-    # repository classes with an __eq__ are dispatched to it
-    for x, y in ((a, b), (b, a)):
+    """a == b (T-DISPATCH): the left operand's __eq__ decides; the reflected __eq__ of the right operand is
+    consulted only when the left one is a value whose class is known not to define one (it answers NotImplemented).
+    A left operand of unknown class may answer anything for a non-identical right operand (uninterpreted py_eq)."""
+    CallArgs = __import__("pyvc.interp").interp.CallArgs
+
+    def repo_eq(x):
         if it.kind(x) == "ref":
             c = it.st.class_id_of(x)
             info = it.ct.info.get(c) if c is not None else None
             if info is not None:
-                m = info.find_method("__eq__")
-                if m is not None:
-                    r = it.call_function(it.bind_method(info, m, x), __import__("pyvc.interp").interp.CallArgs([y]))
-                    return it.truthy(r)
+                return info, info.find_method("__eq__")
+        return None, None
+    ia, ma = repo_eq(a)
+    if ma is not None:
+        return it.truthy(it.call_function(it.bind_method(ia, ma, a), CallArgs([b])))
+    ka = it.kind(a)
+    if ka is None or (ka == "ref" and it.st.class_id_of(a) is None):
+        return eq_term(a, b)
+    ib, mb = repo_eq(b)
+    if mb is not None:
+        return it.truthy(it.call_function(it.bind_method(ib, mb, b), CallArgs([a])))
     return eq_term(a, b)
 
 
@@ -1588,7 +1630,9 @@ def _await_tg_exit(it, aw, idx, node):
     """T-TG: returns only when every member task is done; members are cancelled when the body
     failed or the parent is cancelled while waiting.  Outcome: returns a falsy value, raises a
     BaseExceptionGroup of member errors (and the body's error), or raises CancelledError - either
-    the body's own cancellation (the same object) or one that arrived during the wait."""
+    the body's own cancellation (the same object) or one that arrived during the wait.  A cancellation
+    that arrives during the wait while a member fails (e.g. its cleanup raises when it is cancelled) is
+    *not* raised: the group of member errors is, and the request stays pending (Task.cancelling())."""
     st = it.st
     g = aw.data["group"]
     st.put(g, "$tg_exited", it.mk_bool(True))
@@ -1604,7 +1648,12 @@ def _await_tg_exit(it, aw, idx, node):
         alts.append(("reraises-body-cancellation", False))
     allow = c is None or not hasattr(c, "cancel_during_taskgroup_exit") or c.cancel_during_taskgroup_exit(it)
     alts.append(("cancelled-while-waiting", bool(allow)))
+    alts.append(("cancelled-while-waiting+member-failed", bool(allow)))
     j = st.fork(f"await#{idx}:taskgroup-exit", alts)
+    if j >= 3 and c is not None and hasattr(c, "current_task"):
+        t = c.current_task(it)
+        if it.kind(t) == "ref":             # an external cancel() is counted until somebody calls uncancel()
+            st.put(t, "$cancelling", V.VInt(V.ival(st.get(t, "$cancelling")) + 1))
     if j == 0:
         return V.VNone
     if j == 1:
@@ -1612,6 +1661,9 @@ def _await_tg_exit(it, aw, idx, node):
         raise PyRaise(e, "TaskGroup: unhandled errors in members")
     if j == 2:
         raise PyRaise(exc, "TaskGroup re-raises the body's CancelledError")
+    if j == 4:
+        e = st.alloc("BaseExceptionGroup")
+        raise PyRaise(e, "TaskGroup: cancelled while waiting, a member failed: the group of member errors is raised")
     raise PyRaise(it.new_exc("CancelledError"), "cancelled while the TaskGroup waits for its members")
 
 
